@@ -149,7 +149,7 @@ fn gen_cases(t: Tier) -> Vec<GenCase> {
     for r in SHORT_RATES {
         v.push(GenCase::Dvbs2 { rate: r.into(), short: true });
     }
-    for (r, s) in [("7/8", false), ("9/10", true), ("abc", false), ("", false), ("1/2 ", false), ("2/4", false), ("0.5", true), ("1/5", true)] {
+    for (r, s) in [("7/8", false), ("9/10", true), ("abc", false), ("", false), ("1/2 ", false), ("2/4", false), ("0.5", true), ("1/5", true), ("0/0", false), ("1/0", true), ("0/1", false), ("-1/2", false), ("1/2/3", true), ("/", false), ("18446744073709551616/2", false), ("3", false)] {
         v.push(GenCase::Dvbs2Invalid { rate: r.into(), short: s });
     }
     v.push(GenCase::Dvbs2Girth);
@@ -162,7 +162,7 @@ fn gen_cases(t: Tier) -> Vec<GenCase> {
             v.push(GenCase::Ccsds { rate: r.into(), k });
         }
     }
-    for (r, k) in [("3/4", "1024"), ("1/2", "2048"), ("1/2", "abc"), ("", "1024"), ("4/5", "0"), ("1/2", "-1024")] {
+    for (r, k) in [("3/4", "1024"), ("1/2", "2048"), ("1/2", "abc"), ("", "1024"), ("4/5", "0"), ("1/2", "-1024"), ("0/0", "1024"), ("1/0", "1024"), ("0/1", "4096"), ("-1/2", "1024"), ("1/2/3", "1024"), ("/", "1024"), ("18446744073709551616/2", "1024"), ("1/2", "18446744073709551616"), ("7/8", "1024"), ("2", "1024")] {
         v.push(GenCase::CcsdsInvalid { rate: r.into(), k: k.into() });
     }
     v.push(GenCase::CcsdsGirth);
